@@ -53,7 +53,7 @@ PROPS = {
     'C03': _p(['story', 'item', 'mixed', 'meta'], ['C03.frame'], RULE_STEP, 6000, 400000, _STEP),
     'C04': _p(['mixed', 'story', 'item', 'meta', 'script'], ['C04.payload'], RULE_STEP, 6000, 400000, _STEP),
     'C05': _p(['story', 'item', 'mixed', 'kofn'], ['C05.atomic'], RULE_STEP, 6000, 400000, _STEP, faulty=True),
-    'C06': _p(['story', 'item', 'mixed', 'kofn'], ['C06.count', 'C06.silent', 'C06.spurious', 'C06.rest', 'C06.all-ids'], RULE_STEP, 6000, 400000, _STEP),
+    'C06': _p(['story', 'item', 'mixed', 'kofn', 'collection'], ['C06.count', 'C06.silent', 'C06.spurious', 'C06.rest', 'C06.all-ids', 'C06.collection'], RULE_STEP, 6000, 400000, _STEP),
     'C07': _p(['end', 'end', 'mixed', 'collection'], ['C07.terminal', 'C07.terminal-changed', 'C07.never-completed', 'C07.complete',
                                                       'C07.content', 'C07.record', 'C07.roundtrip', 'C07.flag'], RULE_STEP, 4000, 300000,
               {'roundtrip': True, 'accessors': False, 'message': False}),
